@@ -127,6 +127,18 @@ def run(tier):
     C.count(3)
     if len(set(outs)) != 1 or not (0 <= outs[0].find("a") < outs[0].find("b") < outs[0].find("c")):
         C.violation({"kind": "sorted-keys"}, "maps built in different insertion orders print %s" % outs, {"outs": outs})
+    # the same for every key kind, repeatedly (an unsorted print would follow the per-map random iteration order)
+    for kt, keys in (("bool", [{"k": "bool", "v": True}, {"k": "bool", "v": False}]), ("i32", [{"k": "int", "w": "i32", "v": str(x)} for x in (5, -3, 0)]),
+                     ("char", [{"k": "char", "v": c} for c in "zab"]), ("u64", [{"k": "int", "w": "u64", "v": str(x)} for x in (2**63, 1, 7)])):
+        ty = {"t": "map", "k": {"t": kt}, "v": {"t": "u8"}}
+        val = {"k": "map", "v": [[kk, {"k": "int", "w": "u8", "v": "1"}] for kk in keys]}
+        inp = "\n".join(json.dumps({"id": i, "ty": ty, "val": val}) for i in range(40)) + "\n"
+        p = subprocess.run([vp.bin_path("serde_probe")], input=inp.encode(), stdout=subprocess.PIPE, timeout=60)
+        outs = set(json.loads(l)["render"].get("out", "") for l in p.stdout.decode().splitlines())
+        C.count(40)
+        C.nontrivial(["sorted", kt])
+        if len(outs) != 1:
+            C.violation({"kind": "sorted-keys", "keytype": kt}, "a map with %s keys prints differently from render to render: %s" % (kt, sorted(outs)[:3]), {"outs": sorted(outs)})
     k = len(vecs) // 2
     C.sample({"type": tyname(vecs[k]["ty"]), "value": conc(vecs[k]["val"]), "refused": vecs[k]["refused"], "lossy": vecs[k]["lossy"], "print": vecs[k]["print"]})
     C.assumptions += ["the dynamic driver makes the Serializer/Deserializer calls of derived impls (missing Option fields -> None; structs accept maps and sequences; newtype visitors accept "
